@@ -611,6 +611,9 @@ func (ex *Exec) assertTerm(label string, c *Term, kind string) {
 		return
 	}
 	ex.ensureFeasible()
+	if ex.gmodeOn() && kind == "assert" {
+		kind = "ghost" // confirmed by re-executing the recorded schedule inside gse
+	}
 	nc := ex.ts.BNot(c)
 	v := ex.check(nc, true)
 	switch v {
